@@ -8,7 +8,7 @@ from ..core import rule, Ctx
 from ..index import AnalysisError, dotted, src, walk_no_nested, names_in
 from ..consteval import Evaluator, Unfoldable, fold, TOP
 from ..cfg import CFG
-from ..util import pred_is, reach_conds
+from ..util import pred_is, reach_conds, node_calls
 from .slots import BASEDEMUX, TAGS, P, DEMUXMODS
 
 MD = P + 'modularDemultiplexer/'
@@ -229,6 +229,34 @@ def r4(ctx):
         raise AnalysisError('fastqCleanerRegex not found')
     keep = regex_kept_chars(rx[0].value.args[0].value)
     if keep is None:
+        # any other spelling of the cleaner (`[^\\w-]`, flags): the kept alphabet is read off the constant pattern character by character over
+        # printable ASCII (the pattern and its flags are literals of the module; nothing of the repository is executed)
+        import re as _re
+        flags = 0
+        okflags = True
+        for a_ in list(rx[0].value.args[1:]) + [k.value for k in rx[0].value.keywords if k.arg == 'flags']:
+            for part in (a_.values if isinstance(a_, ast.BoolOp) else [a_]):
+                names_ = []
+
+                def _collect(x):
+                    if isinstance(x, ast.BinOp) and isinstance(x.op, ast.BitOr):
+                        _collect(x.left), _collect(x.right)
+                    else:
+                        names_.append(x)
+                _collect(part)
+                for x in names_:
+                    fl = getattr(_re, src(x).split('.')[-1], None) if src(x).startswith('re.') else None
+                    if fl is None:
+                        okflags = False
+                    else:
+                        flags |= int(fl)
+        try:
+            cre = _re.compile(rx[0].value.args[0].value, flags) if okflags else None
+        except _re.error:
+            cre = None
+        if cre is not None:
+            keep = {chr(c) for c in range(32, 127) if cre.sub('', chr(c)) == chr(c)}
+    if keep is None:
         ctx.emit('C04-R4', False, BASEDEMUX, rx[0], 'fastqCleanerRegex is not a negated character class', key='decoder-alphabet', undecided=True)
         return
     ok = ':' not in keep and ';' not in keep and {'A', 'C', 'G', 'T', 'N'} <= keep and set('0123456789') <= keep
@@ -376,7 +404,10 @@ def r6(ctx):
                        'entry (shared with C02-R8), and on decoding the sample name is LY_bi whenever a cell index is present')
 def r7(ctx):
     from . import C02
+    from ..core import include
     C02.provenance(ctx, 'C04-R7')
+    # the qualities stored next to a base tag (RQ next to RX, ...) are cut with the slice of the bases: shared with C02-R1
+    include(ctx, C02, [C02.r1], 'C04-R7')
     f = ctx.fn(BASEDEMUX, 'TaggedRecord.tagPysamRead')
     sm = [c for c in walk_no_nested(f) if isinstance(c, ast.Call) and isinstance(c.func, ast.Attribute) and c.func.attr == 'addTagByTag' and c.args
           and isinstance(c.args[0], ast.Constant) and c.args[0].value == 'SM' and len(c.args) > 1]
@@ -393,6 +424,52 @@ def r7(ctx):
         detail = "SM = LY_bi is assigned iff 'bi' in self.tags" if ok else f"SM = LY_bi additionally depends on {extra} (a read with a cell index can be named LY_BULK)"
     ctx.emit('C04-R7', ok, BASEDEMUX, bi_calls[0] if bi_calls else f, 'tagPysamRead: ' + detail, key='sample-name-iff-cell-index',
              what='tagPysamRead: the sample name ignores the cell index under an extra condition')
+
+
+@rule('C04', 'C04-R8', 'a read name is decoded into a record of its own: wherever tags are decoded from a read name (fromTaggedBamRecord / fromTaggedFastq) inside a '
+                       'loop, the receiving TaggedRecord is constructed in the same iteration (decoding only adds tags, so a record reused across reads keeps '
+                       'the tags of earlier reads)')
+def r8(ctx):
+    sites = []
+    for rel in ctx.ix.pyfiles():
+        try:
+            text = ctx.ix.read(rel)
+        except AnalysisError:
+            continue
+        if 'fromTaggedBamRecord' not in text and 'fromTaggedFastq' not in text:
+            continue
+        m = ctx.ix.module(rel)
+        for fdef in [x for x in ast.walk(m.tree) if isinstance(x, (ast.FunctionDef, ast.AsyncFunctionDef))]:
+            for c in walk_no_nested(fdef):
+                if isinstance(c, ast.Call) and isinstance(c.func, ast.Attribute) and c.func.attr in ('fromTaggedBamRecord', 'fromTaggedFastq') and isinstance(c.func.value, (ast.Name, ast.Attribute)):
+                    sites.append((rel, fdef, c))
+    ctx.need('C04-R8', len(sites), 1, 'read-name decoding call sites')
+    # the decoder only ever adds: if it started by resetting its tag table a reused record would be fine
+    dec = ctx.fn(BASEDEMUX, 'TaggedRecord.fromTaggedBamRecord')
+    resets = bool(dec.body) and isinstance(dec.body[0], ast.Assign) and src(dec.body[0].targets[0]) == 'self.tags' and isinstance(dec.body[0].value, (ast.Dict, ast.Call))
+    for rel, fdef, c in sites:
+        recv = c.func.value
+        loops = [l for l in walk_no_nested(fdef) if isinstance(l, (ast.For, ast.While)) and any(x is c for x in walk_no_nested(l))]
+        if not loops or resets:
+            ctx.emit('C04-R8', True, rel, c, f'{src(c)[:50]}: ' + ('decoder resets its tag table first' if resets else 'not inside a loop'), key=f'fresh-decoder-record:{src(recv)}', nontrivial=False)
+            continue
+        inner = loops[-1]
+        for l in loops:
+            if all(any(x is l2 for x in walk_no_nested(l)) or l2 is l for l2 in loops):
+                pass
+        # innermost loop containing the call
+        inner = min(loops, key=lambda l: sum(1 for _ in walk_no_nested(l)))
+        fresh = False
+        if isinstance(recv, ast.Name):
+            cfg = CFG(inner.body, exceptions=False)
+            ids = [n.id for n in cfg.nodes if any(x is c for x in node_calls(n))]
+            dom = cfg.dominators()
+            defs = {n.id for n in cfg.nodes if n.kind == 'stmt' and isinstance(n.ast, ast.Assign) and any(src(t_) == recv.id for t_ in n.ast.targets)
+                    and isinstance(n.ast.value, ast.Call) and (dotted(n.ast.value.func) or '').endswith('TaggedRecord')}
+            fresh = bool(ids) and all(dom[i] & defs for i in ids)
+        ctx.emit('C04-R8', fresh, rel, c, f'`{src(recv)}` decoding a read name in a loop is ' + ('constructed in the same iteration' if fresh else
+                 'NOT constructed per read: tags decoded for an earlier read (e.g. its UMI) leak into reads whose name lacks them'), key=f'fresh-decoder-record:{src(recv)}',
+                 what='a TaggedRecord is reused across reads while decoding read names')
 
 
 META = {
